@@ -42,6 +42,14 @@ def main():
     demo = os.path.join(src, "demo.py")
     checks = [c for c in args.checks.split(",") if c] or [args.pid]
     out = {"property": args.pid, "dir": src, "tier": args.tier, "checks": {}}
+    previous = {}
+    if os.path.exists(os.path.join(src, "eval.json")):
+        with open(os.path.join(src, "eval.json"), encoding="utf-8") as handle:
+            previous = json.load(handle)
+    if args.skip_suite and "suite_ok" in previous:
+        out["suite_ok"] = previous["suite_ok"]
+        out["suite_tail"] = previous.get("suite_tail")
+        out["suite_note"] = "suite result carried over from an earlier evaluation of the same patch"
     tree = tempfile.mkdtemp(prefix="vf-seed-", dir="/tmp")
     os.rmdir(tree)
     rc, txt = sh(["git", "-C", "/repo", "worktree", "add", "-q", "--detach", tree, "HEAD"])
